@@ -2,6 +2,8 @@ package props
 
 import (
 	"fmt"
+	"k8s.io/apimachinery/pkg/runtime"
+	kubefake "k8s.io/client-go/kubernetes/fake"
 	"sort"
 	"strings"
 	"sync"
@@ -69,6 +71,19 @@ func (w *policyWorld) newManager() {
 	k := w.k
 	k.Serialize = true // syncPods fans out goroutines; the simulator serialises commands like the kernel's xtables lock does
 	w.pm = policy.NewVerif(embedKubeClient(), ipset.New(k.Exec()), utiliptables.New(k.Exec(), utiliptables.ProtocolIpv4), w.host,
+		corelisters.NewPodLister(w.podIdx), corelisters.NewNamespaceLister(w.nsIdx), netlisters.NewNetworkPolicyLister(w.polIdx))
+}
+
+// newManagerNotStarted: a fresh PolicyManager as after a daemon start with no NetworkPolicy in the cluster: its pod informer has
+// not been started, it lists the pods of c through the client.
+func (w *policyWorld) newManagerNotStarted(c pwCluster) {
+	k := w.k
+	k.Serialize = true
+	var objs []runtime.Object
+	for _, p := range c.Pods {
+		objs = append(objs, w.podObj(p))
+	}
+	w.pm = policy.NewVerifNotStarted(kubefake.NewSimpleClientset(objs...), ipset.New(k.Exec()), utiliptables.New(k.Exec(), utiliptables.ProtocolIpv4), w.host,
 		corelisters.NewPodLister(w.podIdx), corelisters.NewNamespaceLister(w.nsIdx), netlisters.NewNetworkPolicyLister(w.polIdx))
 }
 
